@@ -147,6 +147,8 @@ def shape(events, fmt, special):
     stack = [[]]
     for ev in events:
         if ev[0] in ('pack', 'unpack'):
+            if ev[0] == 'pack' and len(ev) > 2 and str(ev[2]).replace(' ', '') in ('-1', '(-1)'):
+                continue    # the constant null marker (a negative length), wherever it is built: not part of the layout of present elements
             if ev[1] in fmt:
                 stack[-1].append(('fmt', fmt[ev[1]]))
             else:
